@@ -491,6 +491,9 @@ func TestCorr(t *testing.T) {
 	// ---- end-block election through the real consensus keeper (CheckAndProcessEstimatedMessages) ----
 	runEndBlock(t, run, r, stateStore, storeKey)
 
+	// ---- BytesToHash of every proof type, split votes of field-near-miss proofs (nearmiss_test.go) ----
+	runNearMiss(t, run, r)
+
 	if err := run.Finish("Cons.Quorum Corr.C04", "C04.case", "C04.check"); err != nil {
 		t.Fatal(err)
 	}
